@@ -16,8 +16,18 @@ Definition idf : actor -> actor := fun y => y.
 Definition ido : op -> op := fun p => p.
 Definition pass_order (k : nat) : list branch := if select_biased then select_order else rotate k select_order.
 
+(* when an actor-side label does nothing: its guard does not hold *)
+Definition guard_fails (l : label) (x : actor) : Prop :=
+  match l with
+  | AStartDone _ _ => a_pc x <> PStart \/ hop_free x = false
+  | APassBegin _ _ => a_pc x <> PIdle
+  | APoll _ _ => forall b rest, a_pc x <> PSel (b :: rest)
+  | AHandleDone _ _ => (forall o k, a_pc x <> PHandle o k) \/ hop_free x = false
+  | AStopDone _ _ => (forall k c, a_pc x <> PStop k c) \/ hop_free x = false
+  | _ => True end.
+
 Inductive Local (s : sys) (a : aid) (x : actor) : label -> (actor -> actor) -> (op -> op) -> list event -> Prop :=
-| L_noop l : Local s a x l idf ido []
+| L_noop l : guard_fails l x -> Local s a x l idf ido []
 | L_start_ok out :
     a_pc x = PStart -> hop_free x = true -> (forall e, out <> HErr e) -> out <> HPanic ->
     Local s a x (AStartDone a out) (fun y => set_a_pc PIdle (set_a_ustate [HvStart] y)) ido [EvStartExit a out]
@@ -113,8 +123,8 @@ Lemma start_done_nf s a out x :
   exists f fo evs, start_done a out s = NF a f fo evs s /\ Local s a x (AStartDone a out) f fo evs.
 Proof.
   intros Hx. unfold start_done. rewrite Hx.
-  destruct (a_pc x) eqn:Hpc; try (exists idf, ido, []; split; [apply NF0|constructor]).
-  destruct (hop_free x) eqn:Hh; [|exists idf, ido, []; split; [apply NF0|constructor]].
+  destruct (a_pc x) eqn:Hpc; try (exists idf, ido, []; split; [apply NF0|apply L_noop; left; congruence]).
+  destruct (hop_free x) eqn:Hh; [|exists idf, ido, []; split; [apply NF0|apply L_noop; right; exact Hh]].
   rewrite (emit_NF0 a s (EvStartExit a out)).
   destruct out.
   - rewrite NF_upd_actor. eexists _, _, _. split; [reflexivity|]. apply L_start_ok; try assumption; intros; discriminate.
@@ -124,7 +134,7 @@ Proof.
   - rewrite NF_upd_actor. eexists _, _, _. split; [reflexivity|]. apply L_start_ok; try assumption; intros; discriminate.
 Qed.
 
-Ltac noop := exists idf, ido, []; split; [apply NF0|constructor].
+Ltac noop := exists idf, ido, []; split; [apply NF0|apply L_noop; cbn [guard_fails]; first [congruence | left; congruence | right; assumption | intros; congruence | left; intros; congruence]].
 
 Lemma pass_begin_nf s a k x :
   get_actor s a = Some x ->
